@@ -194,3 +194,32 @@ prop("C16", "proof",
      ["roff escape()/Roff rendering (K08 dropped after measurement)", "render_html loop (`<`/`>` replacement)", "markdown rendering", "rendering of each section (write_help_item etc.)", "termination of extract_sections"],
      note=VERUS_NOTE, needs_docgen=True,
      technique="Verus proof of extract_sections against `levels` (docgen configuration) + Kani model checking of change_style over its full domain")
+
+# ---- later coverage (disambiguate_short, run_inner, HelpItemsIter, roff escape)
+PROPS["C02"]["not_covered"] = ["split_os_argument beyond the bounds of K03 (ASCII <= 3 bytes, fixed non-ASCII families)", "parse_os_str pass-through"]
+PROPS["C02"]["claim"] = PROPS["C02"]["explanation"] = PROPS["C02"]["explanation"] + (
+    " disambiguate_short (the `-abc` cluster splitter) is proved, for every String and every pair of name tables, against vstd's UTF-8 model: "
+    "a cluster is its flags one by one, then at most one argument name whose value is exactly the remaining chars (sliced at a char boundary, so no panic on "
+    "multi-byte names), or the whole word kept as a positional, or the ambiguity error; items of earlier words are never touched.")
+PROPS["C04"]["claim"] = PROPS["C04"]["explanation"] = PROPS["C04"]["explanation"] + (
+    " String slicing in disambiguate_short is proved to happen at char boundaries (vstd UTF-8 model); the roff escape() byte loop and HelpItemsIter::next are panic free and their inner loops terminate.")
+PROPS["C05"]["claim"] = PROPS["C05"]["explanation"] = PROPS["C05"]["explanation"] + (
+    " disambiguate_short only appends to the item list (frame proved), so splitting one word never drops or rewrites items of earlier words.")
+PROPS["C09"]["not_covered"] = ["split_os_argument (assumed inside State::construct: an attached value is an ArgWord, a short name is not empty; bounded by K03)", "ArgScanner hooks in the autocomplete configuration (assumed)", "correspondence of the positional items after `--` with the raw words (only their kind and ledger state are proved)"]
+PROPS["C11"]["claim"] = PROPS["C11"]["explanation"] = PROPS["C11"]["explanation"] + (
+    " OptionParser::run_inner (real body, both feature configurations) returns a value only through run_subparser on the state State::construct built for the whole line, "
+    "and never when tokenisation reported an ambiguity outside completion mode (guards defect D13).")
+PROPS["C10"]["claim"] = PROPS["C10"]["explanation"] = PROPS["C10"]["explanation"] + (
+    " run_inner reports an ambiguous short cluster before anything else and otherwise hands the tokenised line to run_subparser.")
+PROPS["C12"]["not_covered"] = ["Meta::peek_front_ty (assumed: passes a fn item to find_map; a Kani harness on 2-3 hand-built children ran CBMC out of memory)", "Dedup / write_help_item / render_help", "usage normalisation (meta.rs normalize)", "that every Parser::meta mirrors what eval consumes", "items inside an `anywhere` block without help text are not listed (by design of HelpItemsIter)"]
+PROPS["C12"]["claim"] = PROPS["C12"]["explanation"] = PROPS["C12"]["explanation"] + (
+    " The three item lists are proved to partition the collected entries: HelpItemsIter::next (real loop) yields, in order, exactly the entries `listed_under` the requested list; "
+    "every entry outside an `anywhere` block is listed under exactly one of options / commands / positionals (flags, arguments and anywhere-items under options, commands under commands, positionals under positionals), never under two.")
+PROPS["C16"]["not_covered"] = ["angle-bracket escaping in the HTML/markdown renderers", "per-section rendering (render_markdown / render_manpage bodies)", "Roff::control / plaintext (which escaping class each kind of text is written with: read, not proved)", "termination of extract_sections' recursion and of escape's outer loop over the caller's iterator"]
+PROPS["C16"]["claim"] = PROPS["C16"]["explanation"] = (
+    "section extraction is proved (docgen configuration): extract_sections emits the section of a level followed, for every visible command of that level in item-list order, by the sections of that command "
+    "with the path extended by its name - every level reachable through visible subcommands, once, in order, nothing for hidden ones. "
+    "Roff escaping is proved: the real byte loop of escape() writes, for every fragment sequence and every byte, exactly what the escaping table says (request arguments: space/newline/backslash escaped; "
+    "text: `\\&` before `.`/`'` at a line start, backslash and dash escaped, apostrophe replaced), and from that table: user text never puts `.` or `'` at the start of an output line, the line-start flag is set after every newline written, "
+    "a request argument never contains a newline (lemmas lemma.C16.*; defect D6 and seeded change C16-m1 fail these obligations). html style transitions (change_style) close/open tags in nesting order for all 8x8 style pairs (Kani, complete for that function).")
+PROPS["C16"]["technique"] = "Verus proofs of extract_sections against `levels` and of escape() against the roff escaping table (docgen configuration) + Kani model checking of change_style over its full domain"
